@@ -197,6 +197,7 @@ fn bad(c: &str, k: &str, m: String) -> Bad {
 }
 
 struct Run {
+    testbed: bool,
     d: Daemon,
     role: RoleDef,
     session: Option<String>,
@@ -233,7 +234,42 @@ impl Run {
                 let _ = self.admin("DELETE", &format!("/api/v1/cas/{ca}"), None)?;
             }
         }
+        // ca2 gets something to report: it is made a child of the testbed CA, which then forgets it
+        let parents = self.admin("GET", "/api/v1/cas/ca2/parents", None)?;
+        if self.testbed && !parents.text().contains("\"p1\"") {
+            let step = |r: Reply, what: &str| -> Result<Reply, String> { if r.status == 200 { Ok(r) } else { Err(format!("{what}: {} {}", r.status, r.text())) } };
+            // (a CA without repository does not talk to its parents)
+            if self.admin("GET", "/api/v1/cas/ca2/repo", None)?.status != 200 {
+                let pr = step(self.admin("GET", "/api/v1/cas/ca2/id/publisher_request.json", None)?, "publisher request")?;
+                let _ = self.admin("DELETE", "/api/v1/pubd/publishers/ca2", None)?;
+                step(self.admin("POST", "/api/v1/pubd/publishers", Some(&pr.text()))?, "add publisher")?;
+                let rr = step(self.admin("GET", "/api/v1/pubd/publishers/ca2/response.json", None)?, "repository response")?;
+                let body = serde_json::json!({"repository_response": rr.json().unwrap_or_default()});
+                step(self.admin("POST", "/api/v1/cas/ca2/repo", Some(&body.to_string()))?, "configure repository")?;
+            }
+            let req = step(self.admin("GET", "/api/v1/cas/ca2/id/child_request.json", None)?, "child request")?;
+            let idc = req.json().and_then(|j| j.get("id_cert").and_then(|c| c.as_str()).map(|s| s.to_string())).ok_or("no id_cert in child request")?;
+            let body = serde_json::json!({"handle": "ca2", "resources": {"asn": "AS64496", "ipv4": "10.0.0.0/24", "ipv6": ""}, "id_cert": idc});
+            let _ = self.admin("DELETE", "/api/v1/cas/testbed/children/ca2", None)?;
+            step(self.admin("POST", "/api/v1/cas/testbed/children", Some(&body.to_string()))?, "add child")?;
+            let resp = step(self.admin("GET", "/api/v1/cas/testbed/children/ca2/parent_response.json", None)?, "parent response")?;
+            let body = serde_json::json!({"handle": "p1", "response": resp.json().unwrap_or_default()});
+            step(self.admin("POST", "/api/v1/cas/ca2/parents", Some(&body.to_string()))?, "add parent")?;
+            step(self.admin("DELETE", "/api/v1/cas/testbed/children/ca2", None)?, "remove child")?;
+            let _ = self.admin("POST", "/api/v1/cas/ca2/sync/parents", None)?;
+            // the failing synchronisation is a background task: wait for its report
+            for _ in 0..150 {
+                if Self::names_in(&self.admin("GET", "/api/v1/bulk/cas/issues", None)?).contains("ca2") {
+                    break;
+                }
+                std::thread::sleep(std::time::Duration::from_millis(20));
+            }
+        }
         Ok(())
+    }
+
+    fn names_in(reply: &Reply) -> BTreeSet<String> {
+        reply.json().and_then(|j| j.get("cas").and_then(|c| c.as_object().map(|m| m.keys().cloned().collect()))).unwrap_or_default()
     }
 
     /// What an administrator can see of the state.
@@ -355,6 +391,21 @@ impl Run {
             }
             self.hit("listing_checked");
         }
+        if api && permitted && r.method == "GET" && r.path == "/api/v1/bulk/cas/issues" && reply.status == 200 {
+            let got = Self::names_in(&reply);
+            let all = Self::names_in(&self.admin("GET", "/api/v1/bulk/cas/issues", None)?);
+            if std::env::var("KVH_C13_DEBUG").is_ok() {
+                eprintln!("issues: caller sees {got:?}, administrator sees {all:?}; parents of ca2: {}", self.admin("GET", "/api/v1/cas/ca2/parents", None)?.text());
+            }
+            // (issues come and go with the background syncs: only what the caller must not see is judged)
+            let forbidden: Vec<&String> = got.iter().filter(|c| !who.map(|w| allowed(w, "ca-read", Some(c.as_str()))).unwrap_or(false)).collect();
+            if !forbidden.is_empty() {
+                return Ok(Err(bad("c13-listing", "issues", format!("{what}: the issues of {forbidden:?} were shown to a caller who may not read them (administrator sees {all:?})"))));
+            }
+            if !all.is_empty() {
+                self.hit("issues_listing_checked");
+            }
+        }
         if permitted && r.method != "GET" {
             self.ensure_baseline()?;
         }
@@ -383,7 +434,7 @@ impl Prop for C13 {
         .prop_flat_map(|p| prop_oneof![3 => Just(p | (1 << 7)), 1 => Just(p)]);
         let step = (any::<u16>(), prop_oneof![1 => Just(Cred::None), 1 => Just(Cred::Garbage), 1 => Just(Cred::Admin), 5 => Just(Cred::Session), 4 => Just(Cred::SocketPeer)], prop_oneof![3 => Just(0u8), 2 => Just(1u8), 1 => Just(2u8)], any::<bool>())
             .prop_map(|(route, cred, ca, valid_body)| Step { route, cred, ca, valid_body });
-        (perms, prop_oneof![2 => Just(None), 3 => (0u8..4).prop_map(Some)], prop_oneof![4 => Just(false), 1 => Just(true)], vec(step, n)).prop_map(|(perms, cas, testbed, steps)| Case { perms, cas, testbed, steps }).boxed()
+        (perms, prop_oneof![2 => Just(None), 3 => (0u8..4).prop_map(Some)], prop_oneof![2 => Just(false), 1 => Just(true)], vec(step, n)).prop_map(|(perms, cas, testbed, steps)| Case { perms, cas, testbed, steps }).boxed()
     }
 
     fn run(case: &Case, _ctx: &Ctx) -> Outcome {
@@ -402,7 +453,7 @@ impl Prop for C13 {
             Ok(d) => d,
             Err(e) => return Outcome::Harness(format!("daemon: {e}")),
         };
-        let mut run = Run { d, role: role.clone(), session: None, stats: Default::default() };
+        let mut run = Run { testbed: case.testbed, d, role: role.clone(), session: None, stats: Default::default() };
         if let Err(e) = run.ensure_baseline() {
             return Outcome::Harness(format!("baseline: {e}"));
         }
